@@ -71,7 +71,7 @@ def generate_point(ctx):
         a, b = arrays.fresh_array("f", [ny, nx], "float"), arrays.fresh_array("g", [ny, nx], "float")
         r = f(a, b)
         sums = run.__dict__.get("sums", [])
-        run.oblige("returns-one-total", SBool(len(sums) == 1 and r is sums[0][1]), kind="post", props=P)
+        run.oblige("returns-one-total", SBool(len(sums) == 1 and r is sums[0][1]), kind="post", props=P, meta={"structural": True})
         if len(sums) == 1:
             loops.oblige_equal(run, "total-of-the-pointwise-product", sums[0][0],
                                Arr(a.axes, lambda j, i: a.at(j, i) * b.at(j, i), "float"), kind="post", props=P)
@@ -103,7 +103,7 @@ def generate_source_area(ctx):
             run.assume(n >= 1)
             perms = run.__dict__.get("perms", [])
             ghosts = run.__dict__.get("prefix_ghosts", [])
-            run.oblige("one-sort-one-cumulative-sum", SBool(len(perms) == 1 and len(ghosts) == 1), kind="post", props=P)
+            run.oblige("one-sort-one-cumulative-sum", SBool(len(perms) == 1 and len(ghosts) == 1), kind="post", props=P, meta={"structural": True})
             if len(perms) != 1 or len(ghosts) != 1:
                 return
             pi = perms[0]
